@@ -28,7 +28,7 @@ from simkit.kernel import EventLog, Forks, HarnessError, RunStats, Scratch, Viol
 from simkit.runner import repo_dir
 
 SPEC = {
-    "C19": dict(engine="orchsim", level="fault_enumeration", runs=dict(quick=1500, thorough=40000), chunk=10, run_timeout=600,
+    "C19": dict(engine="orchsim", level="fault_enumeration", runs=dict(quick=1500, thorough=20000), chunk=10, run_timeout=600,
                 rule="per run: one configuration (mode, batch size 1-4, 2-7 plates, chains, chunks); a fault-free census run numbers "
                      "every crash site (each mkdir of makedirs, each entry removed by rmtree, each launch, each process completion, "
                      "each published file) and yields the reference trace; then one run with 1-2 crash sites drawn uniformly over "
@@ -794,7 +794,10 @@ def gen_plan(prop, run_seed, tier):
     w, s, f = F.fork("workload"), F.fork("schedule"), F.fork("faults")
     mode = w.choice(["retrospective", "retrospective", "prospective"])
     n_plates = w.randint(2, 7) if w.random() < 0.82 else w.randint(11, 13)  # >= 11 steps: iter_10 sorts before iter_2 as a string
-    plan = dict(engine="orchsim", prop=prop, mode=mode, batch_size=w.randint(1, 4), n_plates=n_plates,
+    batch_size = w.randint(1, 4)
+    if w.random() < 0.05:  # two-digit iteration indices with a batch size above one
+        batch_size, n_plates = w.choice([2, 2, 3]), w.randint(24, 30)
+    plan = dict(engine="orchsim", prop=prop, mode=mode, batch_size=batch_size, n_plates=n_plates,
                 n_observed=w.randint(1, max(1, n_plates - 2)), n_chains=w.randint(1, 2), n_chunks=w.randint(1, 3),
                 seed=s.randrange(2**31), real=(f.random() < (0.01 if tier == "quick" else 0.02)),
                 n_crashes=f.choice([1, 1, 2] if tier == "quick" else [1, 2, 2, 3]), crash_u=[f.random() for _ in range(3)],
